@@ -700,6 +700,11 @@ pub fn check(tier: Tier) -> i32 {
             }
         }
     }
+    // locals added to a function that replaced an import
+    let repl = replaced_cases();
+    states += repl.len() as u64;
+    transitions += repl.iter().map(|c| (c.built.len() + c.seq.len()) as u64).sum::<u64>();
+    run.run_cases("function that replaced an import", &repl, run_replaced);
     run.states = Some(states);
     run.transitions = Some(transitions);
     run.extra.insert(
@@ -713,7 +718,125 @@ pub fn check(tier: Tier) -> i32 {
     run.finish()
 }
 
+// ---------------------------------------------------------------------------------------------
+// locals added to a function that replaced an import (FunctionBuilder::replace_import_in_module)
+// ---------------------------------------------------------------------------------------------
+#[derive(Serialize, Deserialize, Clone, Debug)]
+struct ReplCase {
+    /// number of i32 params / i32 results of the import's type
+    params: u8,
+    results: u8,
+    /// locals the builder declares before the replacement (type alphabet indices)
+    built: Vec<u8>,
+    /// locals added afterwards
+    seq: Vec<u8>,
+    /// 0 = FunctionModifier::add_local, 1 = ModuleIterator::add_local
+    api: u8,
+}
+
+fn run_replaced(c: &ReplCase) -> Outcome {
+    let mut o = Outcome::ok(format!("replaced-import p{} r{} built{} +{} api{}", c.params, c.results, c.built.len(), c.seq.len(), c.api));
+    let ps = "i32 ".repeat(c.params as usize);
+    let rs = "i32 ".repeat(c.results as usize);
+    let wat = format!(
+        r#"(module (type $t (func (param {}) (result {}))) (type $v (func)) (import "e" "other" (func (type $v))) (import "e" "f" (func $imp (type $t))) (func $l (type $v)) (export "x" (func $imp)))"#,
+        ps, rs
+    );
+    let bytes = wat::parse_str(&wat).expect("harness: base assembles");
+    let r = catch(|| {
+        let mut module = Module::parse(&bytes, false).expect("harness: base parses");
+        let imp = module.imports.find("e".to_string(), "f".to_string()).expect("library: imports.find does not find a live import");
+        let params: Vec<DataType> = (0..c.params).map(|_| DataType::I32).collect();
+        let results: Vec<DataType> = (0..c.results).map(|_| DataType::I32).collect();
+        let mut fb = wirm::ir::function::FunctionBuilder::new(&params, &results);
+        let mut ids = vec![];
+        for t in c.built.iter() {
+            ids.push(*fb.add_local(ty(*t).0));
+        }
+        for _ in 0..c.results {
+            fb.i32_const(0);
+        }
+        fb.replace_import_in_module(&mut module, imp);
+        // the replaced import is function 1 (behind the other import)
+        let fid = FunctionID(1);
+        if c.api == 0 {
+            let mut fm = module.functions.get_fn_modifier(fid).expect("library: get_fn_modifier refuses the function that replaced an import");
+            for t in c.seq.iter() {
+                ids.push(*fm.add_local(ty(*t).0));
+            }
+        } else {
+            let mut it = ModuleIterator::new(&mut module, &vec![]);
+            position(&mut it, 1).expect("library: the module iterator does not reach the function that replaced an import");
+            for t in c.seq.iter() {
+                ids.push(*it.add_local(ty(*t).0));
+            }
+        }
+        (ids, module.encode())
+    });
+    let (ids, out) = match r {
+        Ok(x) => x,
+        Err(p) => {
+            if p.msg.starts_with("harness:") {
+                panic!("{}", p.msg);
+            }
+            o.fail(format!("panic replaced-import {}", p.site()), format!("{} at {}:{}", p.msg, p.file, p.line));
+            return o;
+        }
+    };
+    o.observed = hash_of(&out);
+    let v = match decode(&out) {
+        Ok(v) => v,
+        Err(e) => {
+            o.fail("output-undecodable replaced-import", e);
+            return o;
+        }
+    };
+    // the function that replaced the import is the one with the import's signature
+    let want_sig: Vec<String> = (0..c.params).map(|_| "i32".to_string()).chain(std::iter::once("->".to_string())).chain((0..c.results).map(|_| "i32".to_string())).collect();
+    let Some((_, locals)) = v.funcs.iter().find(|(sig, _)| *sig == want_sig) else {
+        o.fail("replaced-import function-missing", format!("no local function with signature {:?}", want_sig));
+        return o;
+    };
+    let requested: Vec<u8> = c.built.iter().chain(c.seq.iter()).copied().collect();
+    let want_locals: Vec<String> = requested.iter().map(|t| ty_name(*t)).collect();
+    if *locals != want_locals {
+        o.fail("encoded-locals replaced-import", format!("declared {:?}, requested {:?}", locals, want_locals));
+    }
+    for (j, id) in ids.iter().enumerate() {
+        let want = c.params as u32 + j as u32;
+        if *id != want {
+            o.fail(
+                format!("returned-index replaced-import {}", if j < c.built.len() { "builder" } else if c.api == 0 { "modifier" } else { "module-iterator" }),
+                format!("local #{} ({}) of a function with {} params: returned index {}, expected {}", j, ty_name(requested[j]), c.params, id, want),
+            );
+        }
+    }
+    o
+}
+
+fn replaced_cases() -> Vec<ReplCase> {
+    let mut v = vec![];
+    for params in 0..=2u8 {
+        for results in 0..=2u8 {
+            for built in [vec![], vec![1u8], vec![0, 1]] {
+                for seq in [vec![0u8], vec![3], vec![0, 3], vec![1, 1]] {
+                    for api in 0..2u8 {
+                        v.push(ReplCase { params, results, built: built.clone(), seq: seq.clone(), api });
+                    }
+                }
+            }
+        }
+    }
+    v
+}
+
 pub fn replay(_family: &str, case: &serde_json::Value) -> Vec<Mismatch> {
+    if case.get("built").is_some() {
+        return match serde_json::from_value::<ReplCase>(case.clone()) {
+            Ok(c) => run_replaced(&c).mismatches,
+            Err(e) => vec![Mismatch::new("replay-file-unreadable", e.to_string())],
+        };
+    }
     match serde_json::from_value::<Case>(case.clone()) {
         Ok(c) => run_case(&c).mismatches,
         Err(e) => vec![Mismatch::new("replay-file-unreadable", e.to_string())],
